@@ -62,7 +62,7 @@ ASSUMPTIONS = [
     "an empty program (no commands after compilation) is not written: both readers document ValueError for it",
     "writing is a read-only operation: after to_blackbird / to_xir / generate_code / sf.save the source program has the same snapshot as "
     "before and a second write gives the same text (every caller saves a program and then runs it); excluded for blackbird TDM "
-    "programs whose measurement angle is a loop variable (AUDIT-FINDING blackbird-tdm-writer-mutates-source)",
+    "programs whose measurement angle is a loop variable (finding F69, fixed)",
     "generate_code(prog, eng): the code is executed without its last line 'results = eng.run(prog)' (nothing is simulated); the "
     "engine it constructs must have the backend name and backend_options of eng (only cutoff_dim is generated: the documented "
     "output format has no place for other options); the register size is compared for generate_code even if the top modes are "
@@ -916,9 +916,9 @@ def _check_rt(ctx, case):
         finally:
             _reset_symbols(prog)
         # ---- (1b) writing is a read-only operation: the source program is what it was, a second write gives the same text
-        # AUDIT-FINDING blackbird-tdm-writer-mutates-source: to_blackbird aliases op["args"] = cmd.op.p for measurements and then
+        # finding F69 (fixed; the exclusion below is switched off): to_blackbird aliased op["args"] = cmd.op.p for measurements and then
         # replaces the loop variable by its name IN that list: the source MeasureHomodyne({p0}) becomes MeasureHomodyne('p0')
-        aliasing = not case.get("audit_include_excluded") and w == "blackbird" and is_tdm and any(o[0].startswith("Measure") and any(is_ast(p_) and p_[0] == "tdm" for p_ in o[1])
+        aliasing = False and not case.get("audit_include_excluded") and w == "blackbird" and is_tdm and any(o[0].startswith("Measure") and any(is_ast(p_) and p_[0] == "tdm" for p_ in o[1])
                                                        for o in case["ops"])
         if not aliasing:
             after = snapshot(prog, binds, meas)
